@@ -212,6 +212,9 @@ CoreProgram(k, n, r, vals, ex) ==
                   FinishCall(k, Call("apply", <<Var("f"), Call("list", args)>>)),
                   FinishCall(k, IF args = <<>> THEN Call("apply", <<Var("g")>>)
                             ELSE Call("apply", <<Var("g"), args[1], Call("list", Tail(args))>>)),
+                  \* two arguments spelled out before the list
+                  FinishCall(k, IF Len(args) < 2 THEN Call("apply", <<Var("f"), Call("list", args)>>)
+                            ELSE Call("apply", <<Var("f"), args[1], args[2], Call("list", SubSeq(args, 3, Len(args)))>>)),
                   \* internal definitions live in the frame of their call only: the top-level bindings of the same names are intact
                   Call("list", <<Var("helper"), Var("ev"), Var("p1"), Var("rest"), Var("all")>>)>>,
       tag |-> <<"core", k, n, r>>]
